@@ -74,7 +74,7 @@ def handleRead (op : String) (args : List String) : String :=
     match ofHex hex with
     | some bs =>
       let s := bs.map fun b => Char.ofNat b.toNat
-      match loadIndex (s.length + 1) s with
+      match loadIndex (s.length + 1) 0 s with
       | none => "err"
       | some es => "ok " ++ ";".intercalate (es.map showEntry)
     | none => "bad-op"
